@@ -332,7 +332,8 @@ impl Monitor for C04 {
         }
         for (side, i) in &rec.inds {
             if let Some(f) = fin_of(i) {
-                if *side == Side::S && is_success(ctx.scn, &f) {
+                // (for the sender, NoError + Complete is the claim, whatever file status it echoes)
+                if *side == Side::S && f.0 == Condition::NoError && f.1 == DeliveryCode::Complete {
                     ctx.arm("sender-success");
                     if !self.r_success && !r_now {
                         ctx.flag("sender-success-without-receiver-success", "", "the sender reported NoError/Complete although its receiver never reported a successful delivery");
@@ -906,6 +907,7 @@ pub struct C08 {
     pending: Vec<((u64, u64), u64)>,
     size_known: Option<u64>,
     meta_at_fill: bool,
+    eof_at: Option<u64>,
 }
 fn qbits(q: &[(u64, u64)]) -> u128 {
     q.iter().fold(0, |m, r| m | bits(r.0, r.1))
@@ -927,6 +929,9 @@ impl Monitor for C08 {
         }
         let now_ms = rec.obs.now.as_millis() as u64;
         let fss = 4u64;
+        if before.eof.is_none() && self.d.eof.is_some() {
+            self.eof_at = Some(now_ms);
+        }
         // was the request queue (re)computed in this step? (anything but popping from its front)
         let refilled_now = {
             let q = &rec.obs.r_naks;
@@ -1001,14 +1006,22 @@ impl Monitor for C08 {
                 }
                 let got = qbits(&all);
                 let marker = all.iter().any(|r| r.0 == 0 && r.1 == 0);
-                if got != missing {
+                // with a NAK delay the list is filled window by window: the check of a single gap may
+                // fall due before the whole-file check that EOF scheduled; each filling must ask only
+                // for missing bytes, and from the moment the whole-file check is due, for all of them
+                let partial_ok = scn.nak_delay_s > 0 && now_ms < self.eof_at.unwrap_or(0) + scn.nak_delay_s * 1000;
+                if partial_ok {
+                    if got & !missing != 0 {
+                        ctx.flag("requests-not-exactly-missing", "asks-for-held-bytes", format!("the receiver computed the requests {:?} but only {:?} is missing", all, runs(missing, size)));
+                    }
+                } else if got != missing {
                     ctx.flag(
                         "requests-not-exactly-missing",
                         if got & !missing != 0 { "asks-for-held-bytes" } else { "leaves-out-missing-bytes" },
                         format!("after EOF the receiver computed the requests {:?} but the bytes not yet received are {:?}", all, runs(missing, size)),
                     );
                 }
-                if marker != meta_missing {
+                if marker != meta_missing && !(partial_ok && !marker) {
                     ctx.flag("requests-not-exactly-missing", format!("marker={} meta_missing={}", marker, meta_missing), format!("requests {:?}, metadata missing: {}", all, meta_missing));
                 }
             }
@@ -1040,15 +1053,20 @@ impl Monitor for C08 {
                     }
                 }
             }
-            if let Ev::Timeout(Side::R, _) = rec.ev {
-                let due: Vec<_> = self.pending.iter().filter(|(_, t)| *t <= now_ms).cloned().collect();
-                self.pending.retain(|(_, t)| *t > now_ms);
-                for (gap, _) in due {
-                    ctx.arm("delayed-gap-due");
-                    let still = bits(gap.0, gap.1) & !self.d.held;
-                    if qbits(q) & still != still {
-                        ctx.flag("new-gap-not-requested", "delayed", format!("the gap {:?} persisted for the configured delay but the queue is {:?}", gap, q));
-                    }
+        }
+        // delayed checks of gaps opened before EOF fall due whether or not EOF has arrived meanwhile
+        if let Ev::Timeout(Side::R, _) = rec.ev {
+            let due: Vec<_> = self.pending.iter().filter(|(_, t)| *t <= now_ms).cloned().collect();
+            self.pending.retain(|(_, t)| *t > now_ms);
+            for (gap, t_due) in due {
+                ctx.arm("delayed-gap-due");
+                // the receiver's loop wakes at its earliest timer: a check that is due is serviced then
+                if now_ms > t_due + 1 {
+                    ctx.flag("delayed-gap-check-late", "", format!("the delayed check of the gap {:?} was due at {} ms but was serviced at {} ms", gap, t_due, now_ms));
+                }
+                let still = bits(gap.0, gap.1) & !self.d.held;
+                if qbits(q) & still != still && rec.obs.r_sub == "ReceiveData" {
+                    ctx.flag("new-gap-not-requested", "delayed", format!("the gap {:?} persisted for the configured delay but the queue is {:?}", gap, q));
                 }
             }
         }
